@@ -98,6 +98,7 @@ type Step struct {
 	Managed bool   `json:"managed,omitempty"` // use db.Update/db.View
 	FailAt  int    `json:"failat,omitempty"`  // for fnerr: number of ops executed before returning the error
 	Fault   *Fault `json:"fault,omitempty"`
+	After   []Op   `json:"after,omitempty"` // calls made on the transaction after it finished
 }
 
 // Fault describes an injected I/O fault inside the Commit of a step.
